@@ -455,6 +455,33 @@ def uf(name, *args):
     return SN(t)
 
 
+def numeric_uf_axioms(eps="1/1000000000000"):
+    """for every uninterpreted application recorded on this path whose arguments are numeric constants (possibly through
+    other such applications, e.g. LOG(SQRT(6.28))) assert that its value lies within eps of the true value"""
+    import math
+    fns = {"LOG": math.log, "EXP": math.exp, "SQRT": math.sqrt, "SIN": math.sin, "COS": math.cos}
+    known = {}
+    ax = []
+    e = z3.RealVal(eps)
+    for nm, args, t in UF_LOG:
+        if nm not in fns or len(args) != 1:
+            continue
+        a = z3.simplify(args[0])
+        v = _const_value(a)
+        val = float(v) if v is not None else known.get(a.get_id())
+        if val is None:
+            continue
+        try:
+            r = fns[nm](val)
+        except (ValueError, OverflowError):
+            continue
+        known[z3.simplify(t).get_id()] = r
+        known[t.get_id()] = r
+        c = _num_const(r)
+        ax.append(z3.And(t - c <= e, c - t <= e))
+    return ax
+
+
 def real_mod(x, m):
     """x % m for reals, m a positive constant: result r = x - k*m with integer k, 0 <= r < m."""
     me = lift(m)
